@@ -31,7 +31,7 @@ CHECKS = {
     "C08": ("proof", "site census of all atomic operations on bitmap words + term-level checks (single RMW, single-bit masks, harvest returns the RMW's own result, no load->RMW data dependence)",
             "Given the RMW total order of atomics, the enumerated structural conditions imply that no mark is lost and no unset bit is harvested under every interleaving — a quantifier over schedules that tests cannot cover.",
             "Trusted: C++/Rust atomics semantics; Vec indexing; rustc MIR.", "DESIGN.md §3 C08"),
-    "C09": ("other", "dominance + unit/endpoint form rules on AtomicBitmap: guarded word access, div_ceil sizing agreement between new/enlarge/Clone, inclusive-last range form, forwarders",
+    "C09": ("other", "dominance + unit/endpoint form rules on AtomicBitmap: guarded word access, div_ceil sizing agreement between new/enlarge/Clone, inclusive-last range form (range body found by effect), polarity of the marking entries (set sets, reset clears, followed through the shared helper's constant or closure), forwarders",
             "Decides the form clauses (strict page<size guards on the same page term, page->word/bit units, ceil sizing, inclusive last page behind len!=0, offset-adding slices). The identity 'first..=last = overlapped pages' for all values is not decided.",
             "Trusted: core div_ceil/saturating_add/RangeInclusive/Vec; atomics.", "DESIGN.md §3 C09"),
     "C10": ("other", "who-may-construct census, validator strictness from dominating facts, structure of insert/remove on a cloned vector, deep-immutability type walk, &self receivers, witnesses",
